@@ -397,7 +397,10 @@ def c15(full):
     if not oq or ops is None or comps is None:
         return out
     if "raises" in oq:
-        out.append(F(["C15"], "to_openql-raises", exc=oq["raises"], msg=oq.get("msg")))
+        diag = None
+        if oq["raises"] == "RuntimeError" and "duplicate kernel name" in (oq.get("msg") or "") and _predict_duplicate_kernel_names(ops, comps):
+            diag = "D5b"
+        out.append(F(["C15"], "to_openql-raises", exc=oq["raises"], msg=oq.get("msg"), diag=diag))
         return out
     got = []
     for name, calls in _flat_items(oq["items"]):
@@ -422,8 +425,58 @@ def c15(full):
 
     want = _walk_indices(ops, comps, leaf_i)
     if got != want:
-        out.append(F(["C15"], "openql-not-image-of-listing", got=got[:40], want=want[:40], n_got=len(got), n_want=len(want)))
+        diag = "D5a" if got == _walk_nested_first(ops, comps, leaf_i) else None
+        out.append(F(["C15"], "openql-not-image-of-listing", got=got[:40], want=want[:40], n_got=len(got), n_want=len(want), diag=diag))
     return out
+
+
+def _chains(ops, comps):
+    n = len(ops)
+    by_depth = sorted(range(len(comps)), key=lambda j: comps[j].get("depth", 0))
+    chain = [[] for _ in range(n)]
+    for j in by_depth:
+        for i in comps[j]["leaves"]:
+            if 0 <= i < n:
+                chain[i].append(j)
+    return chain
+
+
+def _walk_nested_first(ops, comps, leaf_i):
+    """What an exporter emits that adds every nested sub-program while walking and its own kernel last
+    (known finding D5a): per block, first the nested blocks (in order, x count), then the block's own gates."""
+    chain = _chains(ops, comps)
+    n = len(ops)
+
+    def emit(lo, hi, level):
+        nested, own = [], []
+        i = lo
+        while i < hi:
+            if len(chain[i]) > level:
+                j = chain[i][level]
+                k = i
+                while k < hi and len(chain[k]) > level and chain[k][level] == j:
+                    k += 1
+                body = emit(i, k, level + 1)
+                for _ in range(comps[j]["reps"]):
+                    nested.extend(body)
+                i = k
+            else:
+                own.extend(leaf_i(i))
+                i += 1
+        return nested + own
+
+    return emit(0, n, 0)
+
+
+def _predict_duplicate_kernel_names(ops, comps):
+    """Kernel names are derived from the class names of a block's operations: two blocks with the same
+    sequence, or one block emitted more than once, give the same name twice in one program (known finding D5b)."""
+    seqs = [tuple(o["l"][0] for o in ops)]
+    for k in comps:
+        if k["reps"] >= 2:
+            return True
+        seqs.append(tuple(ops[i]["l"][0] for i in k["leaves"] if 0 <= i < len(ops)))
+    return len(set(seqs)) != len(seqs)
 
 
 def _flat_items(items):
